@@ -796,6 +796,16 @@ inline void op(VM &vm) {
             uint8_t shortBy = vm.rd.u8();
             int64_t cap = sz;
             if ((shortBy & 7) == 7 && sz > 0) cap = sz - 1 - (shortBy >> 3) % sz;  // a smaller capacity: must never overrun
+            if ((shortBy & 7) == 6) {  // a negative capacity with a zero-length buffer: nothing may be written, and cells cannot "fit"
+                static const int64_t NEG[4] = {-1, INT64_MIN, -2147483648LL, -4294967297LL};
+                int64_t ncap = NEG[(shortBy >> 3) & 3];
+                Buf<H3Index> none(0);
+                arg_int(C, ncap, false);
+                rc = polygonToCellsExperimental(&P.gp, res, flags, ncap, none.p);
+                done(C, rc);
+                if (mask) expect_code(C, rc, mask, "invalid flags / res outside 0..15");
+                break;
+            }
             Buf<H3Index> out((size_t)cap);
             rc = polygonToCellsExperimental(&P.gp, res, flags, cap, out.p);
             done(C, rc);
@@ -1100,6 +1110,15 @@ inline void op(VM &vm) {
             uint8_t shortBy = vm.rd.u8();
             int64_t cap = n;
             if ((shortBy & 3) == 3 && n > 0) cap = n - 1 - (shortBy >> 2) % n;
+            if ((shortBy & 3) == 2 && n > 0) {  // a negative capacity with a zero-length buffer
+                static const int64_t NEG[4] = {-1, INT64_MIN, -2147483648LL, -4294967297LL};
+                int64_t ncap = NEG[(shortBy >> 2) & 3];
+                Buf<H3Index> none(0);
+                rc = uncompactCells(in.p, (int64_t)set.size(), none.p, ncap, res);
+                done(C, rc);
+                if (C.all_cells_valid && !anyNull) expect_code(C, rc, M(E_MEMORY_BOUNDS), "negative capacity");
+                break;
+            }
             Buf<H3Index> out((size_t)cap);
             rc = uncompactCells(in.p, (int64_t)set.size(), out.p, cap, res);
             done(C, rc);
